@@ -552,11 +552,19 @@ func doBinaryOp(a constant.Value, tok token.Token, b constant.Value, ctx []*inte
 			panic(fmt.Errorf("invalid shift count: cannot convert type %v to type uint", ctx[1].Type))
 		}
 		if s, exact := constant.Int64Val(b); exact {
-			return constant.Shift(a, tok, uint(s))
+			if s < 0 {
+				panic(fmt.Errorf("invalid shift count %v (negative)", b))
+			}
+			if s <= maxShiftCount {
+				return constant.Shift(a, tok, uint(s))
+			}
 		}
 		panic(errors.New("shift count too large (overflow)"))
 	}
 }
+
+// maxShiftCount bounds constant shift counts (same bound as go/types' shiftBound).
+const maxShiftCount = 1023 - 1 + 52
 
 const (
 	binaryOpNormal = iota
